@@ -192,10 +192,11 @@ def lock_discipline(ctx):
 def register(PROPS):
     PROPS["C10"] = {
         "generated_layer": True,   # event.go read (which ID counts as dispatched)
-        "gens": [{"id": "C10", "quick": 30000, "thorough": 800000, "thorough_seeds": 12}],
+        "gens": [{"id": "C10", "quick": 30000, "thorough": 800000, "thorough_seeds": 12},
+                 {"id": "GRST", "quick": 3000, "thorough": 80000, "thorough_seeds": 4}],
         "compare": cmp_client,
         "shrink_candidates": shrink_client,
-        "nontrivial": lambda c, g: g.count("A ") >= 2,
+        "nontrivial": lambda c, g: g.count("A ") >= 2 or c.startswith("GRST "),
         "rule": "random outcome histories (transport failure, rejected response, streams with ID-setting / NUL / empty-ID / cut events ending "
                 "cleanly, with a read error, blocked until cancelled) x body kinds (none, NoBody, GetBody ok / failing at call k, no GetBody) "
                 "x initial header; non-trivial = at least two attempts reached the RoundTripper; distinct by case line",
